@@ -231,10 +231,47 @@ def contract_validation(t):
 ''', timeout=T, prelude=PRE_STR, key="hextype_strings", note="validates the stub's contract on real strings (<= 2 hex digits)")]
 
 
+def end_to_end_routes(run):
+    """Concrete end-to-end validation through MasterOfPuppets: the tagging depends on the option alone - not on how (or whether)
+    the rule spells the name valid_addr (literally, through a rule-file macro, through an extra macro file, in an alternative),
+    and the bounds behave as numbers (target equal to either bound, 0, one below / above)."""
+    from vlib import jasmapi
+
+    L = "".join(f"    {a}:\t{b:<21}\t{t}\n" for a, b, t in [
+        ("1000", "e8 fb 0f 00 00", "call   2000 <in_range>"), ("1005", "e8 00 20 00 00", "call   3005 <above>"), ("100a", "eb 00", "jmp    0 <zero>"),
+        ("100c", "e9 ff 0f 00 00", "jmp    0x2fff"), ("1011", "ff d0", "call   *%rax"), ("1013", "68 00 20 00 00", "push   $0x2000"),
+        ("1018", "e8 00 00 00 00", "call   1fff <below>"), ("101d", "c3", "ret")])
+    cfg = {"valid_addr_range": {"min": "0x2000", "max": "2fff"}}
+    lib = [{"macros": [{"name": "@local_target", "pattern": "valid_addr"}]}]
+    want_stream = "1000::call,valid_addr,|1005::call,3005,|100a::jmp,0,|100c::jmp,valid_addr,|1011::call,*%rax,|1013::push,0x2000,|1018::call,1fff,|101d::ret,,|"
+    want_zero = want_stream.replace("1000::call,valid_addr,", "1000::call,2000,").replace("100c::jmp,valid_addr,", "100c::jmp,0x2fff,").replace("100a::jmp,0,", "100a::jmp,valid_addr,").replace("1018::call,1fff,", "1018::call,valid_addr,")
+    cases = [
+        ("literal name", {"config": cfg, "pattern": [{"$or": [{"call": ["valid_addr"]}, {"jmp": ["valid_addr"]}]}]}, None, ["1000", "100c"]),
+        ("rule-file macro", {"config": cfg, "macros": lib[0]["macros"], "pattern": [{"$or": [{"call": ["@local_target"]}, {"jmp": ["@local_target"]}]}]}, None, ["1000", "100c"]),
+        ("extra macro file", {"config": cfg, "pattern": [{"$or": [{"call": ["@local_target"]}, {"jmp": ["@local_target"]}]}]}, lib, ["1000", "100c"]),
+        ("name not used at all", {"config": cfg, "pattern": [{"call": ["2000"]}]}, None, []),
+        ("option absent", {"pattern": [{"call": ["2000"]}]}, None, ["1000"]),
+    ]
+    for nm, doc, macros, want in cases:
+        got = jasmapi.run_pipeline(doc, L, macros, all_matches=True, only_addr=True)
+        stream = jasmapi.run_pipeline(doc, L, macros, ret="stream")
+        run.count("traces_validated_against_impl")
+        ws = want_stream if "config" in doc else want_stream.replace("valid_addr", "2000", 1).replace("valid_addr", "0x2fff", 1)
+        if got != want or stream != ws:
+            run.failure(f"end_to_end/{nm.replace(' ', '_')}", f"rule variant '{nm}': matched {got} (expected {want}); stream {stream!r} (expected {ws!r})", {"kind": "c18_e2e", "variant": nm})
+    # bounds as numbers: range 0x0..1fff contains target 0 and 1fff (both bounds), not 2000
+    doc = {"config": {"valid_addr_range": {"min": "0x0", "max": "1fff"}}, "pattern": [{"$or": [{"call": ["valid_addr"]}, {"jmp": ["valid_addr"]}]}]}
+    stream = jasmapi.run_pipeline(doc, L, None, ret="stream")
+    run.count("traces_validated_against_impl")
+    if stream != want_zero:
+        run.failure("end_to_end/bounds", f"range 0x0..1fff: stream {stream!r} (expected {want_zero!r})", {"kind": "c18_e2e", "variant": "bounds"})
+
+
 def main():
     run = Run("C18", "model_checking", "CH")
     hs = harnesses(tier())
     ch.run_harnesses(run, hs)
+    end_to_end_routes(run)
     cv = contract_validation(tier())
     for h in cv:
         h.attempts = 1
@@ -258,6 +295,9 @@ def main():
 
 
 def replay(rec):
+    if rec.get("kind") == "c18_e2e":
+        print("end-to-end route probe: re-run ./check C18;", rec.get("variant"))
+        return 1
     return ch.replay_record(rec)
 
 
